@@ -187,10 +187,14 @@ Theorem c15_pattern_vars_complete_with_paren_arm : forall V (p : pat V), pat_var
 Proof. exact @pat_vars_complete_with_paren_arm. Qed.
 Theorem c15_pattern_vars_complete_paren_free : forall V (p : pat V), paren_free p = true -> pat_vars false p = pat_binds p.
 Proof. exact @pat_vars_complete_paren_free. Qed.
-(* without the arm, "rebinding an already bound variable is rejected" is refuted by the faithful model: a rule that
-   rebinds v through a parenthesised pattern is accepted under all four macros (known finding
-   paren_pattern_escapes_shadow_check; bar(x) <-- foo(x), let (x) = 5 compiles and yields bar = [(5,)]) *)
-Theorem c15_rebinding_rejected_refuted : exists (mk : (pat ident -> list ident) -> program) (v : ident),
+(* the helper of the code under verification (CheckModel.get_vars, with the Pat::Paren arm since the repair d5a5c02) reports
+   exactly the variables a pattern binds, so the rebinding / grounding theorems above speak about the real binders *)
+Theorem c15_pattern_helper_complete : forall V (p : pat V), get_vars p = pat_binds p.
+Proof. intros V p. exact (@pat_vars_complete_with_paren_arm V p). Qed.
+(* BEFORE that repair (helper without the arm = pat_vars false) "rebinding an already bound variable is rejected" was refuted
+   by the faithful model: a rule that rebinds v through a parenthesised pattern was accepted under all four macros
+   (bar(x) <-- foo(x), let (x) = 5 compiled and yielded bar = [(5,)]; fixed entry paren_pattern_escapes_shadow_check) *)
+Theorem c15_rebinding_rejected_refuted_before_fix : exists (mk : (pat ident -> list ident) -> program) (v : ident),
   (forall k, check [] (mk pat_binds) k = Reject (EShadow v)) /\ (forall k, check [] (mk (pat_vars false)) k = Accept).
 Proof. exact shadow_paren_refutes. Qed.
 Example c15_rebinding_through_parentheses :
@@ -206,4 +210,4 @@ Print Assumptions c15_attribute_on_non_relation_rejected. Print Assumptions c15_
 Print Assumptions c15_attribute_rejection_sound. Print Assumptions c15_relation_attributes_reach_relation.
 Print Assumptions c15_attribute_positions. Print Assumptions c15_pattern_vars_sound.
 Print Assumptions c15_pattern_vars_complete_with_paren_arm. Print Assumptions c15_pattern_vars_complete_paren_free.
-Print Assumptions c15_rebinding_rejected_refuted. Print Assumptions c15_rebinding_through_parentheses.
+Print Assumptions c15_rebinding_rejected_refuted_before_fix. Print Assumptions c15_pattern_helper_complete. Print Assumptions c15_rebinding_through_parentheses.
